@@ -1,8 +1,11 @@
 //! `lsmverif` — correspondence harness between fjall-rs/lsm-tree (the real crate, in-process) and the Lean model
 //! (`lsmdrv`, line protocol). See /verif/DESIGN.md section 5.
 mod ia;
+mod ia2;
+mod flip;
 mod fs;
 mod ib;
+mod id;
 mod util;
 
 use util::{Drv, Stats};
@@ -61,7 +64,25 @@ fn main() {
             if all || which == "small" {
                 ia::small(seed, cases, &mut st, &mut drv);
             }
+            if all || which == "tables" {
+                ia2::tables(seed, cases, &mut st, &mut drv);
+            }
+            if all || which == "frames" {
+                ia2::frames(seed, cases, &mut st, &mut drv);
+            }
+            if all || which == "filters" {
+                ia2::filters(seed, cases, &mut st, &mut drv);
+            }
             st.add("driver.requests", drv.requests);
+        }
+        "id" => {
+            let inflight = args.iter().any(|a| a == "--inflight");
+            let blob = arg_u64(&args, "--blob", 0) == 1;
+            id::campaign(seed, cases, inflight, blob, &mut st);
+        }
+        "flip" => {
+            let thorough = args.iter().any(|a| a == "--thorough");
+            flip::run(seed, cases.max(1), thorough, &mut st, std::path::Path::new("/verif/work/replays"));
         }
         "ib" => {
             let profile = ib::Profile::parse(args.get(2).map(String::as_str).unwrap_or("all"));
